@@ -356,8 +356,14 @@ func (e *Env) putPre(p PreObj) {
 		ann["meta.helm.sh/release-name"] = RelName
 		ann["meta.helm.sh/release-namespace"] = "otherns"
 	case "partial":
-		lbl["app.kubernetes.io/managed-by"] = "Helm"
-		ann["meta.helm.sh/release-name"] = RelName
+		// one of the three ownership marks is missing: which one alternates with the object's name and field
+		if (len(p.Res)+len(p.F1))%2 == 0 {
+			lbl["app.kubernetes.io/managed-by"] = "Helm"
+			ann["meta.helm.sh/release-name"] = RelName
+		} else {
+			ann["meta.helm.sh/release-name"] = RelName
+			ann["meta.helm.sh/release-namespace"] = RelNS
+		}
 	}
 	if p.Keep {
 		ann["helm.sh/resource-policy"] = "keep"
